@@ -251,6 +251,10 @@ fn run_case(env: &Env, c: &Case) -> Verdict {
                         break;
                     }
                 }
+                if got.len() > total_rows + 1000 {
+                    err = Some("RUNAWAY".into());
+                    break;
+                }
                 match stream.next().await {
                     Some(Ok(r)) => got.push(r),
                     Some(Err(e)) => {
@@ -285,6 +289,9 @@ fn run_case(env: &Env, c: &Case) -> Verdict {
         Err(e) if e == "TIMEOUT" => return Err(bad("stream_hang", format!("the row stream did not finish within 30 s; page requests seen: {}", seen.len()))),
         Err(e) => return Err(bad("harness_e2e", e)),
     };
+    if err.as_deref() == Some("RUNAWAY") {
+        return Err(bad("runaway_stream", format!("the stream delivered more than {} rows for a result set of {total_rows}; page requests seen: {:?}", got.len() - 1, seen.iter().take(12).map(|s| (s.page, s.state.clone())).collect::<Vec<_>>())));
+    }
     // rows: exactly the scripted rows, in order
     let expected_rows: Vec<(i32, Vec<u8>)> = (0..total_rows)
         .map(|i| match &row_of(i)[..] {
